@@ -544,6 +544,7 @@ class Sym:
             elif kind == "effect":
                 state["writes"].append((cx(kids(x)[0]), self.rhs(x, state)))
             elif kind == "assign":
+                self.seen.add(off(x))
                 l = cx(kids(x)[0])
                 if x.get("kind") == "CompoundAssignOperator":
                     r = "%s %s" % (x.get("opcode"), self.rhs(kids(x)[1], state))
@@ -620,7 +621,15 @@ class Sym:
 
     def lean(self, fn, doc):
         body = [c for c in kids(fn) if c.get("kind") == "CompoundStmt"][0]
+        self.seen = set()
         t = self.run([body], {"writes": [], "res": "", "asked": [], "vars": {}})
+        # every write to a tracked lvalue must lie on a path of the tree (none hidden in a loop, a switch, a condition)
+        for m, _ in walk(fn):
+            if m.get("kind") in ("BinaryOperator", "CompoundAssignOperator") and m.get("opcode", "").endswith("=") and \
+                    m.get("opcode") not in ("==", "!=", "<=", ">=") and cx(kids(m)[0]) in self.tracked and off(m) not in self.seen:
+                raise TieBroken("tree:" + self.name, "the write `%s` is on no path of the decision tree of %s" % (cx(m), self.name))
+            if m.get("kind") == "UnaryOperator" and m.get("opcode") in ("++", "--", "&") and kids(m) and cx(kids(m)[0]) in self.tracked:
+                raise TieBroken("tree:" + self.name, "`%s` (increment / address of a uid field) in %s" % (cx(m), self.name))
         return "/-- %s -/\ndef %s (%s : Bool) : Leaf :=\n  %s" % (doc, self.name, " ".join(self.params), t)
 
 
